@@ -760,6 +760,195 @@ fn size_sweep<A: Alg>(mode: Mode, quick: bool) -> Sweep {
     sw
 }
 
+// ------------------------------------------------------------------------------------------------
+// Part I: the SAME query around ONE intervening update, at sizes up to ~1100 (directed, exhaustive over its menu).
+
+struct Requery {
+    sizes: Vec<usize>,
+    query_ranges: u64,
+    histories: u64,
+    actions: u64,
+    repeated_asks: u64,
+    searches: u64,
+    /// histories per relation of the updated range to the queried range
+    relations: std::collections::BTreeMap<String, u64>,
+    fail: Option<(usize, Vec<Value>, String)>,
+}
+
+fn requery_sizes(quick: bool) -> Vec<usize> {
+    let mut v = vec![33, 100, 257, 300, 513, 600, 1000, 1025, 1100];
+    if !quick {
+        v.extend([2049, 3000, 4100]);
+    }
+    v
+}
+
+/// widths 1, 2, n/4, 255..258, n/2, n-2, n-1, n; left-aligned, one off the left end, centred, one off the right end, right-aligned
+fn requery_ranges(n: usize) -> Vec<(usize, usize)> {
+    let mut v = vec![];
+    for w in [1, 2, n / 4, 255, 256, 257, 258, n / 2, n.saturating_sub(2), n - 1, n] {
+        if w >= 1 && w <= n {
+            for l in [0, 1, (n - w) / 2, (n - w).saturating_sub(1), n - w] {
+                if l + w <= n {
+                    v.push((l, l + w - 1));
+                }
+            }
+        }
+    }
+    v.sort();
+    v.dedup();
+    v
+}
+
+fn relation(lo: usize, hi: usize, l: usize, r: usize) -> &'static str {
+    if lo < l && hi > r {
+        "strictly_contains"
+    } else if lo == l && hi == r {
+        "equal"
+    } else if lo <= l && hi >= r {
+        "contains_sharing_an_end"
+    } else if hi < l {
+        if hi + 1 == l { "adjacent_left" } else { "disjoint_left" }
+    } else if lo > r {
+        if lo == r + 1 { "adjacent_right" } else { "disjoint_right" }
+    } else if lo >= l && hi <= r {
+        if lo == l || hi == r { "inside_touching_an_end" } else { "strictly_inside" }
+    } else if lo < l {
+        "overlaps_left"
+    } else {
+        "overlaps_right"
+    }
+}
+
+/// every relation of one updated range (modify) or position (set) to the queried [l, r]: (is_set, lo, hi)
+fn requery_ops(n: usize, l: usize, r: usize) -> Vec<(bool, usize, usize)> {
+    let (l, r, n1, mid) = (l as i64, r as i64, n as i64 - 1, (l + r) as i64 / 2);
+    let mut v: Vec<(bool, i64, i64)> = vec![];
+    for (lo, hi) in [(l - 1, r + 1), (0, n1), (l - 1, r), (l, r + 1), (0, r), (l, n1), (l, r), (l + 1, r - 1), (l, l), (r, r), (mid, mid), (l, mid), (mid, r), (l - 1, l), (0, mid), (r, r + 1), (mid, n1), (l - 1, l - 1), (r + 1, r + 1), (0, l - 1), (r + 1, n1), (0, 0), (n1, n1)] {
+        v.push((false, lo, hi));
+    }
+    for i in [l - 1, l, l + 1, mid, r - 1, r, r + 1, 0, n1] {
+        v.push((true, i, i));
+    }
+    let mut out: Vec<(bool, usize, usize)> = vec![];
+    for (s, lo, hi) in v {
+        if 0 <= lo && lo <= hi && hi <= n1 && !out.contains(&(s, lo as usize, hi as usize)) {
+            out.push((s, lo as usize, hi as usize));
+        }
+    }
+    out
+}
+
+/// Histories `constructor, modify(n/3, 2n/3) [stays pending], ask(l,r), searches from l and r, ONE update, ask(l,r)
+/// again, a different ask, ask(l,r) a third time, the searches again` for every (n, [l,r], update) of the menus.
+/// The searches use the first and the last predicate of the algebra's family that is inside the domain on the
+/// array at that moment; where the reference of a search is quadratic (no cheap `holds_on`) they are left out
+/// above n = 300.
+fn requery<A: Alg>(mode: Mode, quick: bool, cheap_search_reference: bool) -> Requery {
+    use rayon::prelude::*;
+    let sizes = requery_sizes(quick);
+    let jobs: Vec<(usize, usize, usize)> = sizes.iter().flat_map(|&n| requery_ranges(n).into_iter().map(move |(l, r)| (n, l, r))).collect();
+    struct Out {
+        histories: u64,
+        actions: u64,
+        asks: u64,
+        searches: u64,
+        rel: Vec<&'static str>,
+        fail: Option<(usize, Vec<Value>, String)>,
+    }
+    let res: Vec<Out> = jobs
+        .par_iter()
+        .enumerate()
+        .map(|(j, &(n, l, r))| {
+            let sys = Sys::<A>::new(n, mode, true);
+            let mut out = Out { histories: 0, actions: 0, asks: 0, searches: 0, rel: vec![], fail: None };
+            let letters: Vec<u8> = (0..n).map(|i| (i % A::n_elems()) as u8).collect();
+            let nm = A::mods().len();
+            let with_searches = cheap_search_reference || n <= 300;
+            let other = if r > l { (l + 1, r) } else if r + 1 < n { (l, r + 1) } else { (l - 1, r) };
+            for (k, (is_set, lo, hi)) in requery_ops(n, l, r).into_iter().enumerate() {
+                let ctor = match (j + k) % 3 {
+                    0 => Act::FromSlice(letters.clone()),
+                    1 => Act::FromIter(letters.clone()),
+                    _ if A::fillable() => Act::New(0),
+                    _ => Act::FromIter(letters.clone()),
+                };
+                let update = if is_set { Act::Set(lo as u16, ((lo + 1) % A::n_elems()) as u8) } else { Act::Modify(lo as u16, hi as u16, 0) };
+                let plan = [Some(Act::Modify((n / 3) as u16, (2 * n / 3) as u16, (1 % nm) as u8)), Some(Act::Ask(l as u16, r as u16)), None, Some(update), Some(Act::Ask(l as u16, r as u16)), Some(Act::Ask(other.0 as u16, other.1 as u16)), Some(Act::Ask(l as u16, r as u16)), None];
+                let mut hist = vec![serde_json::to_value(&ctor).unwrap()];
+                out.histories += 1;
+                out.rel.push(relation(lo, hi, l, r));
+                let mut st = match catch(|| sys.init(&ctor)) {
+                    Ok(Ok(s)) => s,
+                    Ok(Err(m)) | Err(m) => {
+                        out.fail = Some((n, hist, format!("constructor: {m}")));
+                        return out;
+                    }
+                };
+                for step in plan {
+                    let acts: Vec<Act> = match step {
+                        Some(a) => vec![a],
+                        None if !with_searches => vec![],
+                        None => {
+                            // searches from both ends of the queried range, towards and away from it
+                            let ps: Vec<Pred> = A::preds(n);
+                            let mut v = vec![];
+                            for (pos, fwd) in [(l, true), (r, false), (r, true), (l, false)] {
+                                let ok: Vec<&Pred> = ps.iter().filter(|p| A::pred_ok_at(p, &st.model, pos, fwd)).collect();
+                                for p in ok.first().into_iter().chain(ok.last().filter(|_| ok.len() > 1)) {
+                                    v.push(if fwd { Act::Lb(pos as u16, (*p).clone()) } else { Act::LbRev(pos as u16, (*p).clone()) });
+                                }
+                            }
+                            v
+                        }
+                    };
+                    for a in acts {
+                        if let Act::Modify(lo, hi, m) = &a {
+                            let md = A::modifier(*m as usize, *lo as usize);
+                            if A::HAS_DOMAIN && !st.model[*lo as usize..=*hi as usize].iter().all(|e| A::mod_ok(e, &md)) {
+                                continue;
+                            }
+                        }
+                        hist.push(serde_json::to_value(&a).unwrap());
+                        out.actions += 1;
+                        match a {
+                            Act::Ask(..) => out.asks += 1,
+                            Act::Lb(..) | Act::LbRev(..) => out.searches += 1,
+                            _ => {}
+                        }
+                        let bad = match catch(|| sys.step(&mut st, &a)) {
+                            Ok(Ok(_)) => None,
+                            Ok(Err(m)) => Some(m),
+                            Err(p) => Some(format!("panic: {p}")),
+                        };
+                        if let Some(m) = bad {
+                            // the message of the plain re-execution (which also checks every single element after each action)
+                            let m = replay_history(&sys, &hist).err().unwrap_or(m);
+                            out.fail = Some((n, hist, m));
+                            return out;
+                        }
+                    }
+                }
+            }
+            out
+        })
+        .collect();
+    let mut rq = Requery { sizes, query_ranges: jobs.len() as u64, histories: 0, actions: 0, repeated_asks: 0, searches: 0, relations: Default::default(), fail: None };
+    for o in res {
+        rq.histories += o.histories;
+        rq.actions += o.actions;
+        rq.repeated_asks += o.asks;
+        rq.searches += o.searches;
+        for x in o.rel {
+            *rq.relations.entry(x.to_string()).or_insert(0) += 1;
+        }
+        if rq.fail.is_none() {
+            rq.fail = o.fail;
+        }
+    }
+    rq
+}
+
 struct Large {
     sizes: Vec<usize>,
     /// (item, n, constructor, what happened)
@@ -991,9 +1180,13 @@ fn main() {
             sweeps.push(("SumAdd<Z256>", size_sweep::<AlgSumAddZ256>(mode, quick)));
         }
         // Part H: large trees (n around 2^19, 10^6, 2^20), see big.rs
-        (sweeps, large_part(mode, quick))
+        let large = large_part(mode, quick);
+        // Part I: the same query around one intervening update, sizes 33 .. 1100 (4100)
+        let t0 = std::time::Instant::now();
+        let requeries = vec![("SumAdd<i64>", requery::<AlgSumAdd>(mode, quick, false)), ("MinAdd<i64>", requery::<AlgMinAdd>(mode, quick, false)), ("Fr", requery::<AlgFr>(mode, quick, true))];
+        (sweeps, (large, requeries, t0.elapsed().as_secs_f64()))
     };
-    let ((parts, parts_wall), (sweeps, large)) = if quick { rayon::join(run_parts, run_directed) } else { (run_parts(), run_directed()) };
+    let ((parts, parts_wall), (sweeps, (large, requeries, requery_wall))) = if quick { rayon::join(run_parts, run_directed) } else { (run_parts(), run_directed()) };
 
     // What `M::default()` is in every explored algebra (a fact about the harness, not about /repo): it must be
     // a modifier the exploration applies, and the identity only where the modifiers are plain additive
@@ -1067,6 +1260,25 @@ fn main() {
         }
     }
     run.cov("size_sweep", json!({"sweeps": sweep_cov, "note": "NOT a closure: directed histories per size (3 constructors x boundary-targeted modifies x all or boundary (l,r) queries / searches) on the free algebra Fr and (C01) on the crate's SumAdd over a byte that wraps, whose trees contain inner nodes of 256 and 257 elements"}));
+    let mut rq_cov = vec![];
+    let (mut rq_hist, mut rq_asks, mut rq_searches, mut rq_ranges) = (0u64, 0u64, 0u64, 0u64);
+    let rq_sizes = requeries[0].1.sizes.clone();
+    for (label, rq) in requeries {
+        rq_hist += rq.histories;
+        rq_asks += rq.repeated_asks;
+        rq_searches += rq.searches;
+        rq_ranges = rq.query_ranges;
+        if !run.has_violations() && (rq.relations.len() < 11 || rq.relations.values().any(|c| *c == 0) || rq.repeated_asks < 3 * rq.histories) {
+            run.machinery_failure("requery family: a relation of the updated range to the queried range is missing");
+        }
+        rq_cov.push(json!({"algebra": label, "query_ranges": rq.query_ranges, "histories": rq.histories, "actions_executed": rq.actions, "asks": rq.repeated_asks, "searches": rq.searches, "histories_per_relation": rq.relations}));
+        if let Some((n, hist, msg)) = rq.fail {
+            let sig = format!("requery:{label}:n={}:{}", n, serde_json::to_string(&hist.iter().rev().take(4).rev().collect::<Vec<_>>()).unwrap());
+            run.violation(Violation::new(sig, format!("[same query around one update, {label}, n={n}, history of {} actions] {msg}", hist.len()), json!({"kind": "history", "algebra": label, "n": n, "history": hist})));
+        }
+    }
+    let rq_rule = format!(" requery (directed, exhaustive over its menu, NOT a closure): on SumAdd<i64>, MinAdd<i64> and the non-commutative free algebra Fr, for every n in {:?}, every queried range [l,r] of the widths 1, 2, n/4, 255..258, n/2, n-2, n-1, n placed left-aligned, one off either end, centred and right-aligned ({} ranges per algebra), and every ONE update out of modify(l',r') / set(i) in every relation to [l,r] (strictly containing, equal, containing and sharing an end, strictly inside, inside touching an end, overlapping left / right, adjacent left / right, disjoint left / right): constructor (the three in turn), a modify that stays pending, ask(l,r), both searches from l and from r, the update, ask(l,r) again, a different ask, ask(l,r) a third time, the searches again - {} histories, {} asks, {} searches in all, every call judged against the plain array (C02 judges the searches only); the whole history is the replay record", rq_sizes, rq_ranges, rq_hist, rq_asks, rq_searches);
+    run.cov("requery", json!({"families": rq_cov, "sizes": rq_sizes, "wall_s": (requery_wall * 100.0).round() / 100.0, "note": "the same ask repeated around one intervening set / modify in every relation to the queried range; searches on the i64 items only up to n = 300 (their reference is quadratic), on Fr at every size"}));
     // large trees: one report per item, the first failing (n, constructor) in enumeration order
     let mut large_reported: Vec<&str> = vec![];
     let mut large_tot = big::BigOut::default();
@@ -1105,7 +1317,7 @@ fn main() {
     run.cov("distinct_outcomes", outcomes);
     run.cov("exhaustive", all_closed && !run.has_violations());
     run.cov("parts", Value::Array(table));
-    run.cov("rule", "per (algebra, n): BFS over the real Segtree's node array (hook verif_nodes) + plain-array model; every set/modify/ask (C02: also every lower_bound/lower_bound_rev for every predicate of the family at every position; C01: debug) applied in every reached state; parts without depth_bound run to closure (histories of any length), parts with depth_bound cover all histories up to that depth; all three constructor families are initial states of the closing parts. Parts named Pair<X,Y> are Combinator<X,Y> of one built-in item (MinAdd, MaxAdd, SumAdd, and the non-lazy Min, Max, Sum) and one INDEPENDENT non-commutative harness item (W, A3, the free algebra Fr, Flip), in both positions and one nesting level out; the harness part receives the built-in's modifiers through a fixed translation (i64: +1 -> not / x+1 / letter 1, -1 -> const0 / :=0 / letter 2, +2 -> identity / x+2 / letter 3, 0 -> const1 / :=1 / letter 4; Z4: 1,2,3,0 -> not,const0,identity,const1; (): x+1 on Z3), so modifiers that cancel in the built-in part (+1 then -1, a 0) stay pending in the other part and vice versa; the reference is the pair of the two plain-array models; from_iter of all vectors over two element letters are the initial states. Trait surface: every modifier type is Copy+Debug+Default+Eq+Ord+Hash and every harness item / value type implements the std traits its fields allow, so the engine keeps compiling when the crate tightens a bound; these impls are adversarial, not convenient: T::default() is the merge identity and == is exact, but M::default() is an ordinary NON-identity letter of the explored alphabet wherever the modifiers are not plain additive numbers (W: const0, A3: :=0, Fr: letter 0, AP: the progression (2,3) from index 0, Flip with M = () and FlipZ with M = a zero-sized struct: the complement; Pair/Comb: the shared modifier's default, translated to a non-identity of the harness part), see default_modifiers; the additive alphabets (i64, Z4) contain 0 = default next to +1 and -1. Value sentinels: the i64 elements 0, 1, -2 pass through 0, 1, -1 under the modifiers; MinAdd@MAX / MinAdd@MIN / MaxAdd@MIN / MaxAdd@MAX hold elements equal to both limits of i64 (one of them is the item's Default) with modifiers that move away from the limit; MinAdd+=MAX / MaxAdd+=MIN apply the modifier i64::MAX / i64::MIN itself to elements on the far side of 0; Min<u8> / Max<u8> hold 0 and 255 next to 1, 2, 3; the search thresholds of the i64 items lie around 0 and around every element letter. Scalars that wrap (C01): SumAdd<T> counts the elements of a node IN T, so it is also run over Z/m, m = 2, 3, 4, 5, 7, at the sizes whose trees contain inner nodes of length = 0 and = 1 (mod m) (closure where small, else all histories up to depth_bound; from n = 6 on only from_iter initial states), and the size sweep runs it over a wrapping byte (inner nodes of 256 and 257 elements). Predicate domain (C02): a predicate is offered to a search from position x in a direction iff it is monotone along the searched side of x, nothing is asked of it on blocks reaching to the other side: W (alone and with stale tags) also gets ANCHORED predicates - 'first element is 1 [and a 0 follows]' for lower_bound, 'last element is 0 [and a 1 precedes]' for lower_bound_rev - and the sum thresholds of SumAdd<i64> are offered over elements of both signs wherever the truth values along the searched side are monotone (e.g. a negative element before l). Parts named +aborted-searches (C02): the alphabet also holds searches whose predicate (always-false, len>=2) panics at its 1st / 2nd / 3rd evaluation, caught by the harness; nothing is demanded of the aborted call, but the array must be unchanged and all later operations are judged as usual; such states are kept apart from equal node arrays reached without an abort. large_trees: see there");
+    run.cov("rule", "per (algebra, n): BFS over the real Segtree's node array (hook verif_nodes) + plain-array model; every set/modify/ask (C02: also every lower_bound/lower_bound_rev for every predicate of the family at every position; C01: debug) applied in every reached state; parts without depth_bound run to closure (histories of any length), parts with depth_bound cover all histories up to that depth; all three constructor families are initial states of the closing parts. Parts named Pair<X,Y> are Combinator<X,Y> of one built-in item (MinAdd, MaxAdd, SumAdd, and the non-lazy Min, Max, Sum) and one INDEPENDENT non-commutative harness item (W, A3, the free algebra Fr, Flip), in both positions and one nesting level out; the harness part receives the built-in's modifiers through a fixed translation (i64: +1 -> not / x+1 / letter 1, -1 -> const0 / :=0 / letter 2, +2 -> identity / x+2 / letter 3, 0 -> const1 / :=1 / letter 4; Z4: 1,2,3,0 -> not,const0,identity,const1; (): x+1 on Z3), so modifiers that cancel in the built-in part (+1 then -1, a 0) stay pending in the other part and vice versa; the reference is the pair of the two plain-array models; from_iter of all vectors over two element letters are the initial states. Trait surface: every modifier type is Copy+Debug+Default+Eq+Ord+Hash and every harness item / value type implements the std traits its fields allow, so the engine keeps compiling when the crate tightens a bound; these impls are adversarial, not convenient: T::default() is the merge identity and == is exact, but M::default() is an ordinary NON-identity letter of the explored alphabet wherever the modifiers are not plain additive numbers (W: const0, A3: :=0, Fr: letter 0, AP: the progression (2,3) from index 0, Flip with M = () and FlipZ with M = a zero-sized struct: the complement; Pair/Comb: the shared modifier's default, translated to a non-identity of the harness part), see default_modifiers; the additive alphabets (i64, Z4) contain 0 = default next to +1 and -1. Value sentinels: the i64 elements 0, 1, -2 pass through 0, 1, -1 under the modifiers; MinAdd@MAX / MinAdd@MIN / MaxAdd@MIN / MaxAdd@MAX hold elements equal to both limits of i64 (one of them is the item's Default) with modifiers that move away from the limit; MinAdd+=MAX / MaxAdd+=MIN apply the modifier i64::MAX / i64::MIN itself to elements on the far side of 0; Min<u8> / Max<u8> hold 0 and 255 next to 1, 2, 3; the search thresholds of the i64 items lie around 0 and around every element letter. Scalars that wrap (C01): SumAdd<T> counts the elements of a node IN T, so it is also run over Z/m, m = 2, 3, 4, 5, 7, at the sizes whose trees contain inner nodes of length = 0 and = 1 (mod m) (closure where small, else all histories up to depth_bound; from n = 6 on only from_iter initial states), and the size sweep runs it over a wrapping byte (inner nodes of 256 and 257 elements). Predicate domain (C02): a predicate is offered to a search from position x in a direction iff it is monotone along the searched side of x, nothing is asked of it on blocks reaching to the other side: W (alone and with stale tags) also gets ANCHORED predicates - 'first element is 1 [and a 0 follows]' for lower_bound, 'last element is 0 [and a 1 precedes]' for lower_bound_rev - and the sum thresholds of SumAdd<i64> are offered over elements of both signs wherever the truth values along the searched side are monotone (e.g. a negative element before l). Parts named +aborted-searches (C02): the alphabet also holds searches whose predicate (always-false, len>=2) panics at its 1st / 2nd / 3rd evaluation, caught by the harness; nothing is demanded of the aborted call, but the array must be unchanged and all later operations are judged as usual; such states are kept apart from equal node arrays reached without an abort. large_trees: see there.".to_string() + &rq_rule);
     run.cov("pair_family", json!({"algebras": PAIRS.iter().map(|p| p.0).collect::<Vec<_>>(), "note": "explored side by side (rayon)"}));
     run.cov("parts_wall_s", json!({"all_parts": (parts_wall * 100.0).round() / 100.0, "note": if quick { "all parts are explored side by side (rayon), so the wall_s of the parts overlap" } else { "the Pair parts are explored side by side (rayon), so their wall_s overlap; the others one after the other" }}));
     run.assume("harness item algebras W, A3, Fr satisfy the monoid-action laws (merge associative with Default as identity, modify distributes over merge, push = apply pending modifiers to both children in order); a node covering one element never records a pending tag (it has no children, so no tree can read it)");
